@@ -162,6 +162,13 @@ func (ds *dataStore) leaveListBlock(ws *wakeSignal, keyNames []string) {
 	}
 }
 
+// A client hands the wake-up it was given for keyName to the next client waiting for that key.
+func (ds *dataStore) passOnListWakeUp(keyName string) {
+	ds.mu.Lock()
+	defer ds.mu.Unlock()
+	ds.waitingClients.unblock(keyName, 1)
+}
+
 func (ds *dataStore) unblockListUnlocked(keyName string, elements int) {
 	ds.waitingClients.unblock(keyName, elements)
 }
